@@ -1,4 +1,5 @@
 import Ladim.Driver.Util
+import Ladim.Model.Output
 /-
 Line-protocol driver: one JSON request per input line, one JSON response per output line.
 It only *runs* the executable model definitions of `Ladim.Model.*`; it contains no logic of
@@ -98,8 +99,54 @@ def opState (j : Json) : R Json := do
     | .error e => out := out.push (errJ e)
   pure (.arr out)
 
+/-! ### C06/C07: output -/
+
+def getCols (j : Json) : R (List (String × Column)) := do
+  let ps ← getObjPairs j
+  ps.mapM (fun (k, v) => do pure (k, ← getList getVal v))
+
+def getSnapshot (j : Json) : R Snapshot := do
+  pure { time := ← getRat (← fld j "time"), pid := ← getList getNat (← fld j "pid"),
+         alive := ← getList getBool (← fld j "alive"), cols := ← getCols (← fld j "cols"),
+         npid := ← getNat (← fld j "npid"), pvars := ← getCols (← fld j "pvars") }
+
+def vfileJ (f : VFile) : Json :=
+  Json.mkObj [("name", .str f.name), ("time", listJ ratJ f.time), ("count", listJ natJ f.count),
+    ("pid", listJ natJ f.pid), ("inst", colsJ f.inst),
+    ("dense", listJ (fun rec => Json.mkObj (rec.map (fun (n, c) => (n, listJ (optJ valJ) c)))) f.dense),
+    ("pvarN", optJ natJ f.pvarN), ("pvars", colsJ f.pvars), ("closed", .bool f.closed)]
+
+/-- the output side of `main`: for step in range(first, nsteps): if due then write; finally close -/
+def opOutRun (j : Json) : R Json := do
+  let layout := if (← (← fld j "layout").getStr?) == "dense" then Layout.dense else Layout.sparse
+  let nsteps ← getInt (← fld j "nsteps")
+  let period ← getInt (← fld j "period")
+  let numrec ← getInt (← fld j "numrec")
+  let stem ← (← fld j "stem").getStr?
+  let suffix ← (← fld j "suffix").getStr?
+  let skip ← getBool (← fld j "skip_initial")
+  let first ← getInt (← fld j "first_step")
+  let last ← getInt (← fld j "last_step")
+  let snaps ← getList getSnapshot (← fld j "snapshots")   -- one per due step, in order
+  -- snapshots are supplied per due step, in order; look them up by step number
+  let dueList := (Out.stepRange first (last - first + 1).toNat).filter (fun st => Int.fmod st period == 0)
+  if dueList.length != snaps.length then throw s!"expected {dueList.length} snapshots, got {snaps.length}"
+  let table := dueList.zip snaps
+  let dflt : Snapshot := { time := 0, pid := [], alive := [], cols := [], npid := 0, pvars := [] }
+  let snap (st : Int) : Snapshot := (table.lookup st).getD dflt
+  let o0 := Out.init layout period (Out.predictRecords nsteps period skip) numrec stem suffix
+  match Out.runSteps o0 snap (Out.stepRange first (last - first + 1).toNat) with
+  | .error (st, e) => pure (Json.mkObj [("error", .str e.toString), ("at_step", intJ st)])
+  | .ok o => pure (Json.mkObj [("files", listJ vfileJ o.close.files), ("num_records", intJ o.numRecords)])
+
+def opGenName (j : Json) : R Json := do
+  let stem ← (← fld j "stem").getStr?
+  let suffix ← (← fld j "suffix").getStr?
+  let n ← getNat (← fld j "n")
+  pure (listJ (fun k => Json.str (genName stem suffix k)) (List.range n))
+
 def handlers : List (String × (Json → R Json)) :=
-  [("tk", opTk), ("period", opPeriod), ("state", opState)]
+  [("tk", opTk), ("period", opPeriod), ("state", opState), ("outrun", opOutRun), ("genname", opGenName)]
 
 def handle (line : String) : String :=
   match Json.parse line with
